@@ -43,6 +43,7 @@ pub fn run(driver: &str, args: &Args) {
         ("dddmp-roundtrip", "bdd") => roundtrip::<BDDFunction>(args),
         ("dddmp-roundtrip", "bcdd") => roundtrip::<BCDDFunction>(args),
         ("dddmp-roundtrip", "zbdd") => roundtrip::<ZBDDFunction>(args),
+        ("dddmp-roundtrip", "mtbdd") => mt::roundtrip(args),
         ("dddmp-mutate", "bdd") => mutate::<BDDFunction>(args),
         ("dddmp-mutate", "bcdd") => mutate::<BCDDFunction>(args),
         ("dddmp-mutate", "zbdd") => mutate::<ZBDDFunction>(args),
@@ -306,6 +307,38 @@ struct Settings {
 }
 
 fn export_bytes<F: BoolExt>(
+    mref: &F::ManagerRef,
+    roots: &[&F],
+    rnames: Option<&[String]>,
+    set: &Settings,
+) -> (Vec<u8>, Result<std::io::Result<()>, String>)
+where
+    for<'id> INodeOfFunc<'id, F>: HasLevel,
+    for<'id> TermOfFunc<'id, F>: AsciiDisplay,
+{
+    let mut buf: Vec<u8> = Vec::new();
+    let r = catch(|| {
+        mref.with_manager_shared(|m| {
+            let st = ExportSettings::default()
+                .version(if set.v3 { DDDMPVersion::V3_0 } else { DDDMPVersion::V2_0 })
+                .strict(set.strict)
+                .diagram_name(&set.dd);
+            let st = if set.ascii { st.ascii() } else { st.binary() };
+            match rnames {
+                Some(ns) => st.export_with_names(
+                    &mut buf,
+                    m,
+                    roots.iter().copied().zip(ns.iter().map(|s| s.as_str())),
+                ),
+                None => st.export(&mut buf, m, roots.iter().copied()),
+            }
+        })
+    });
+    (buf, r)
+}
+
+/// `export_bytes` without the Boolean-kind bounds
+fn export_bytes_any<F: oxidd::Function>(
     mref: &F::ManagerRef,
     roots: &[&F],
     rnames: Option<&[String]>,
@@ -827,8 +860,29 @@ fn mutations(base: &[u8], rng: &mut Rng, thorough: bool, binary: bool) -> Vec<(V
     ];
     let stride = if thorough { 1 } else { 3 };
     let off = rng.below(stride);
+    // the numeric header lines are short and decisive: always mutated densely
+    let mut numeric = vec![false; len];
+    {
+        let mut a = 0usize;
+        while a < len {
+            let b = a + base[a..].iter().position(|&c| c == b'\n').unwrap_or(len - a);
+            let l = &base[a..b];
+            if [&b".ids"[..], b".permids", b".rootids", b".nnodes", b".nvars", b".nsuppvars", b".nroots", b".varinfo", b".mode"]
+                .iter()
+                .any(|k| l.starts_with(k) && l.get(k.len()).map_or(true, |&c| is_blank(c)))
+            {
+                for x in numeric[a..b].iter_mut() {
+                    *x = true;
+                }
+            }
+            if l == b".nodes" {
+                break;
+            }
+            a = b + 1;
+        }
+    }
     for at in 0..len {
-        let dense = thorough || at % stride == off || (binary && at + 64 > len);
+        let dense = thorough || at % stride == off || numeric[at] || (binary && at + 64 > len);
         if !dense {
             continue;
         }
@@ -848,7 +902,7 @@ fn mutations(base: &[u8], rng: &mut Rng, thorough: bool, binary: bool) -> Vec<(V
         if base[at].is_ascii_digit() {
             // the neighbouring numbers
             for d in [b'0', b'1', b'2', b'3', b'4', b'5', b'6', b'7'] {
-                if d != base[at] && (thorough || rng.chance(1, 2)) {
+                if d != base[at] && (thorough || numeric[at] || rng.chance(1, 2)) {
                     let mut b = base.to_vec();
                     b[at] = d;
                     out.push((json!({"m":"digit","at":at,"to":d}), b));
@@ -1054,4 +1108,399 @@ where
         &out,
         json!({"rows": stats.mutations, "nontrivial": stats.accepted_mut, "exports": stats.exports}),
     );
+}
+
+// ---------------------------------------------------------------------------
+// MTBDD (i64 terminals): ASCII round trips.  Binary mode is not available for
+// diagrams with more than one terminal, and there is no complement function,
+// so mutated files are not exercised for this kind.
+
+mod mt {
+    use std::borrow::Borrow;
+    use std::collections::HashSet;
+    use std::io::Cursor;
+
+    use oxidd::mtbdd::terminal::I64;
+    use oxidd::mtbdd::MTBDDFunction;
+    use oxidd::util::AllocResult;
+    use oxidd::{
+        Edge, Function, HasLevel, InnerNode, Manager, ManagerRef, Node, PseudoBooleanFunction,
+    };
+    use oxidd_core::LevelView;
+    use oxidd_dump::dddmp::{self, DumpHeader};
+
+    use super::{
+        bytes_json, export_bytes_any, header_json, io_res, is_ok, random_settings, res_c,
+        root_names, settings_json, tokenise, var_names, BAD,
+    };
+    use crate::util::{catch, json, write_summary, Args, Rng, TraceOut, Value};
+
+    type MT = MTBDDFunction<I64>;
+    type MRef = <MT as Function>::ManagerRef;
+
+    /// ["n", value] | ["p", 0] (+inf) | ["m", 0] (-inf) | ["x", 0] (NaN)
+    fn val_json(v: &I64) -> Value {
+        match v {
+            I64::Num(x) if x.unsigned_abs() < 1_000_000_000 => json!(["n", x]),
+            I64::Num(_) => json!(["n", BAD]),
+            I64::PlusInf => json!(["p", 0]),
+            I64::MinusInf => json!(["m", 0]),
+            I64::NaN => json!(["x", 0]),
+        }
+    }
+
+    /// terminals are numbered per event: code = -1 - index into `terms`
+    struct Terms(Vec<I64>);
+    impl Terms {
+        fn code(&mut self, t: &I64) -> i64 {
+            let i = match self.0.iter().position(|x| x == t) {
+                Some(i) => i,
+                None => {
+                    self.0.push(*t);
+                    self.0.len() - 1
+                }
+            };
+            -1 - i as i64
+        }
+        fn json(&self) -> Value {
+            json!(self.0.iter().map(val_json).collect::<Vec<_>>())
+        }
+    }
+    fn edge_code<M: Manager<Terminal = I64>>(m: &M, e: &M::Edge, ts: &mut Terms) -> i64 {
+        match m.get_node(e) {
+            Node::Inner(_) => e.node_id() as i64,
+            Node::Terminal(t) => ts.code(t.borrow()),
+        }
+    }
+    fn subgraph<M: Manager<Terminal = I64>>(
+        m: &M,
+        e: &M::Edge,
+        seen: &mut HashSet<usize>,
+        ts: &mut Terms,
+        out: &mut Vec<Value>,
+    ) where
+        M::InnerNode: HasLevel,
+    {
+        if let Node::Inner(node) = m.get_node(e) {
+            if !seen.insert(e.node_id()) {
+                return;
+            }
+            for c in node.children() {
+                subgraph(m, &*c, seen, ts, out);
+            }
+            let mut row = vec![e.node_id() as i64, node.level() as i64];
+            for c in node.children() {
+                row.push(edge_code(m, &*c, ts));
+                row.push(0);
+            }
+            out.push(json!(row));
+        }
+    }
+    fn snapshot<M: Manager<Terminal = I64>>(m: &M, ts: &mut Terms) -> Vec<Value>
+    where
+        M::InnerNode: HasLevel,
+    {
+        let mut out = Vec::new();
+        for level in m.levels().rev() {
+            let lno = level.level_no();
+            for e in level.iter() {
+                let node = m.get_node(e).unwrap_inner();
+                let mut row = vec![
+                    e.node_id() as i64,
+                    lno as i64,
+                    node.level() as i64,
+                    node.ref_count() as i64,
+                ];
+                for c in node.children() {
+                    row.push(edge_code(m, &*c, ts));
+                    row.push(0);
+                }
+                out.push(json!(row));
+            }
+        }
+        out
+    }
+    fn table(f: &MT, n: u32) -> Value {
+        let r = catch(|| {
+            (0..(1u32 << n))
+                .map(|a| val_json(&f.eval((0..n).map(|v| (v, (a >> v) & 1 == 1)))))
+                .collect::<Vec<_>>()
+        });
+        json!(r.unwrap_or_default())
+    }
+    fn no_complement<'id>(
+        _m: &<MT as Function>::Manager<'id>,
+        _e: <<MT as Function>::Manager<'id> as Manager>::Edge,
+    ) -> AllocResult<<<MT as Function>::Manager<'id> as Manager>::Edge> {
+        panic!("harness: MTBDDs have no complement edges")
+    }
+
+    /// events of the import of `bytes` into a fresh manager
+    fn fresh_import(bytes: &[u8]) -> Value {
+        let mut ev = json!({});
+        let mut cur = Cursor::new(bytes);
+        let h = catch(|| DumpHeader::load(&mut cur));
+        ev["hres"] = io_res(&h);
+        let Ok(Ok(header)) = h else {
+            return ev;
+        };
+        ev["h"] = header_json(&header);
+        let nv = header.num_vars();
+        let sv: Vec<u32> = header.support_var_order().to_vec();
+        ev["sv"] = json!(sv);
+        let mref: MRef = oxidd::mtbdd::new_manager(2048, 256, 64, 1);
+        let named = mref.with_manager_exclusive(|m| {
+            let r = match header.var_names() {
+                Some(ns) => match catch(|| m.add_named_vars(ns.iter().cloned())) {
+                    Ok(Ok(_)) => "ok",
+                    Ok(Err(_)) => "dup",
+                    Err(_) => "panic",
+                },
+                None => "none",
+            };
+            let have = m.num_vars();
+            if have < nv {
+                m.add_vars(nv - have);
+            }
+            r
+        });
+        ev["named"] = json!(named);
+        if let Err(p) = mref.with_manager_exclusive(|m| catch(|| oxidd_reorder::set_var_order(m, &sv))) {
+            ev["res"] = json!({"c": "setup_panic", "msg": p});
+            return ev;
+        }
+        let (l2v, v2l): (Vec<u32>, Vec<u32>) = mref.with_manager_shared(|m| {
+            (
+                (0..m.num_levels()).map(|l| m.level_to_var(l)).collect(),
+                (0..m.num_vars()).map(|v| m.var_to_level(v)).collect(),
+            )
+        });
+        ev["n"] = json!(nv);
+        ev["l2v"] = json!(l2v);
+        let sorted = sv.iter().all(|&v| v < nv)
+            && sv.windows(2).all(|w| v2l[w[0] as usize] < v2l[w[1] as usize]);
+        if !sorted {
+            ev["res"] = res_c("precond");
+            return ev;
+        }
+        let base = mref.with_manager_shared(|m| {
+            m.gc();
+            m.num_inner_nodes()
+        });
+        ev["base"] = json!(base);
+        let r = catch(|| {
+            mref.with_manager_shared(|m| {
+                dddmp::import::<MT>(&mut cur, &header, m, sv.iter().copied(), no_complement)
+            })
+        });
+        ev["res"] = io_res(&r);
+        if let Ok(Ok(roots)) = r {
+            let mut ts = Terms(Vec::new());
+            let (es, g, snap, ninner) = mref.with_manager_shared(|m| {
+                let es: Vec<Value> = roots
+                    .iter()
+                    .map(|f| json!([edge_code(m, f.as_edge(m), &mut ts), 0]))
+                    .collect();
+                let mut g = Vec::new();
+                let mut seen = HashSet::new();
+                for f in &roots {
+                    subgraph(m, f.as_edge(m), &mut seen, &mut ts, &mut g);
+                }
+                let snap = snapshot(m, &mut ts);
+                (es, g, snap, m.num_inner_nodes())
+            });
+            ev["es"] = json!(es);
+            ev["g"] = json!(g);
+            ev["snap"] = json!(snap);
+            ev["ninner"] = json!(ninner);
+            ev["terms"] = ts.json();
+            ev["tts"] = json!(roots.iter().map(|f| table(f, nv)).collect::<Vec<_>>());
+            drop(roots);
+        }
+        let after = mref.with_manager_shared(|m| {
+            m.gc();
+            m.num_inner_nodes()
+        });
+        ev["after"] = json!(after);
+        ev
+    }
+
+    const CONSTS: [I64; 9] = [
+        I64::Num(0),
+        I64::Num(1),
+        I64::Num(-1),
+        I64::Num(2),
+        I64::Num(-7),
+        I64::Num(13),
+        I64::PlusInf,
+        I64::MinusInf,
+        I64::NaN,
+    ];
+
+    pub fn roundtrip(args: &Args) {
+        let dir = args.get("out", "/verif/out/tmp");
+        let thorough = args.get("tier", "quick") == "thorough";
+        let seed = args.num("seed", 1);
+        let mut rng = Rng::new(seed ^ 0x1515_aa);
+        let name = "dddmp-roundtrip-mtbdd";
+        let mut out = TraceOut::new(&dir, name, args.num("chunk", 500) as usize);
+        let mut exports = 0u64;
+        let mut nontrivial = 0u64;
+        let count = args.num("count", if thorough { 300 } else { 40 }) as usize;
+        for c in 0..count {
+            let n = if c % 13 == 12 { 0 } else { 1 + rng.below(if c % 3 == 0 { 8 } else { 4 }) } as u32;
+            out.begin_history();
+            out.emit(json!({"ev":"reset","kind":"mtbdd","tag":"rtm"}));
+            let mref: MRef = oxidd::mtbdd::new_manager(1 << 13, 1 << 10, 256, 1);
+            let scheme = rng.below(8);
+            let names = var_names(&mut rng, n as usize, scheme);
+            let ord = rng.perm(n as usize);
+            let before = rng.chance(1, 2);
+            mref.with_manager_exclusive(|m| {
+                m.add_vars(n);
+                for (v, nm) in names.iter().enumerate() {
+                    if !nm.is_empty() {
+                        m.set_var_name(v as u32, nm.as_str()).expect("harness: unique names");
+                    }
+                }
+                if before && n > 0 {
+                    oxidd_reorder::set_var_order(m, &ord);
+                }
+            });
+            // functions: constants, variables of a subset, arithmetic
+            let built = catch(|| {
+                let mut fs: Vec<MT> = Vec::new();
+                mref.with_manager_shared(|m| {
+                    for k in 0..(2 + rng.below(3)) {
+                        let cst = CONSTS[(k + rng.below(CONSTS.len())) % CONSTS.len()];
+                        fs.push(MT::constant(m, cst).unwrap());
+                    }
+                    for v in 0..n {
+                        if rng.chance(2, 3) {
+                            fs.push(<MT as PseudoBooleanFunction>::var(m, v).unwrap());
+                        }
+                    }
+                });
+                for _ in 0..(3 + rng.below(10)) {
+                    let a = fs[rng.below(fs.len())].clone();
+                    let b = fs[rng.below(fs.len())].clone();
+                    let r = match rng.below(5) {
+                        0 => a.add(&b),
+                        1 => a.sub(&b),
+                        2 => a.mul(&b),
+                        3 => PseudoBooleanFunction::min(&a, &b),
+                        _ => PseudoBooleanFunction::max(&a, &b),
+                    };
+                    fs.push(r.unwrap());
+                }
+                fs
+            });
+            let Ok(fs) = built else {
+                out.emit(json!({"ev":"construct_mismatch","why":"panic while building"}));
+                continue;
+            };
+            if !before && n > 0 {
+                mref.with_manager_exclusive(|m| oxidd_reorder::set_var_order(m, &ord));
+            }
+            // projection
+            let mut ts = Terms(Vec::new());
+            let (l2v, mnames, hs, g) = mref.with_manager_shared(|m| {
+                let l2v: Vec<u32> = (0..m.num_levels()).map(|l| m.level_to_var(l)).collect();
+                let mnames: Vec<Value> =
+                    (0..m.num_vars()).map(|v| bytes_json(m.var_name(v).as_bytes())).collect();
+                let mut g = Vec::new();
+                let mut seen = HashSet::new();
+                let mut hs = Vec::new();
+                for (sl, f) in fs.iter().enumerate() {
+                    subgraph(m, f.as_edge(m), &mut seen, &mut ts, &mut g);
+                    hs.push(json!([sl, edge_code(m, f.as_edge(m), &mut ts), 0, table(f, n)]));
+                }
+                (l2v, mnames, hs, g)
+            });
+            out.emit(json!({"ev":"pre","n":n,"l2v":l2v,"names":mnames,"binsup":false,"hs":hs,
+                "g":g,"terms":ts.json()}));
+            for _ in 0..3 {
+                let k = [0usize, 1, 2, 3, 5][rng.below(5)];
+                let roots: Vec<usize> = (0..k)
+                    .map(|_| {
+                        if rng.chance(3, 4) {
+                            fs.len() - 1 - rng.below(fs.len().min(5))
+                        } else {
+                            rng.below(fs.len())
+                        }
+                    })
+                    .collect();
+                let rn = root_names(&mut rng, k);
+                let set = random_settings(&mut rng);
+                let rfs: Vec<&MT> = roots.iter().map(|&i| &fs[i]).collect();
+                let (bytes, r) = export_bytes_any::<MT>(&mref, &rfs, rn.as_deref(), &set);
+                exports += 1;
+                let mut ev = json!({"ev":"export","roots":roots,"set":settings_json(&set),
+                    "res":io_res(&r),"file":tokenise(&bytes)});
+                if let Some(ns) = &rn {
+                    ev["rnames"] = json!(ns.iter().map(|x| bytes_json(x.as_bytes())).collect::<Vec<_>>());
+                }
+                out.emit(ev);
+                if r.is_err() {
+                    continue;
+                }
+                let mut cur = Cursor::new(&bytes[..]);
+                let h = catch(|| DumpHeader::load(&mut cur));
+                let mut ev = json!({"ev":"header","res":io_res(&h)});
+                if let Ok(Ok(hd)) = &h {
+                    ev["h"] = header_json(hd);
+                }
+                out.emit(ev);
+                let Ok(Ok(header)) = h else {
+                    continue;
+                };
+                let sv: Vec<u32> = header.support_var_order().to_vec();
+                let v2l: Vec<u32> = mref
+                    .with_manager_shared(|m| (0..m.num_vars()).map(|v| m.var_to_level(v)).collect());
+                let sorted = sv.iter().all(|&v| (v as usize) < v2l.len())
+                    && sv.windows(2).all(|w| v2l[w[0] as usize] < v2l[w[1] as usize]);
+                let mut ts2 = Terms(Vec::new());
+                let orig: Vec<Value> = mref.with_manager_shared(|m| {
+                    rfs.iter().map(|f| json!([edge_code(m, f.as_edge(m), &mut ts2), 0])).collect()
+                });
+                let mut ev = json!({"ev":"import_same","sv":sv,"orig":orig});
+                let mut same_ok = false;
+                if !sorted {
+                    ev["res"] = res_c("precond");
+                } else {
+                    let r = catch(|| {
+                        mref.with_manager_shared(|m| {
+                            dddmp::import::<MT>(&mut cur, &header, m, sv.iter().copied(), no_complement)
+                        })
+                    });
+                    ev["res"] = io_res(&r);
+                    if let Ok(Ok(imp)) = r {
+                        let eq: Vec<bool> = imp
+                            .iter()
+                            .enumerate()
+                            .map(|(i, f)| i < rfs.len() && f == rfs[i])
+                            .collect();
+                        same_ok = eq.len() == rfs.len() && eq.iter().all(|&b| b);
+                        ev["eq"] = json!(eq);
+                        ev["es"] = mref.with_manager_shared(|m| {
+                            json!(imp
+                                .iter()
+                                .map(|f| json!([edge_code(m, f.as_edge(m), &mut ts2), 0]))
+                                .collect::<Vec<_>>())
+                        });
+                    }
+                }
+                out.emit(ev);
+                let mut ev = fresh_import(&bytes);
+                ev["ev"] = json!("import_fresh");
+                let fresh_ok = is_ok(&ev["res"]);
+                out.emit(ev);
+                if same_ok && fresh_ok && header.num_nodes() >= 2 {
+                    nontrivial += 1;
+                }
+            }
+        }
+        out.finish();
+        write_summary(&dir, name, &out, json!({"rows": exports, "nontrivial": nontrivial}));
+    }
 }
